@@ -22,7 +22,12 @@ def span_programs(seed, n):
         ln = r.choice([1, 2, 7, 8, 9, 10, 17, 18, 26, 63, 64, 71, 72, 73, 80, 100, 150])
         ops = []
         for _ in range(ln):
-            ops.append("push.%d" % r.randrange(2, 2**63) if r.random() < r.choice([0.1, 0.5, 0.9]) else r.choice(["add", "swap", "dup.1", "neg", "mul", "movup.3", "drop", "pad", "incr" if False else "add.1"]))
+            x = r.random()
+            pn = r.choice([0.0, 0.0, 0.15, 0.4])      # share of instructions that assemble to an explicit NOOP
+            if x < pn:
+                ops.append(r.choice(["add.0", "mul.1", "sub.0", "div.1", "exp.1", "u32rotl.0", "u32shl.0"]))
+            else:
+                ops.append("push.%d" % r.randrange(2, 2**63) if r.random() < r.choice([0.1, 0.5, 0.9]) else r.choice(["add", "swap", "dup.1", "neg", "mul", "movup.3", "drop", "push.0", "add.1"]))
         out.append({"src": "begin\n  " + " ".join(ops) + "\nend\n", "kernel": None, "inputs": [r.randrange(100) for _ in range(r.choice([0, 16, 20]))], "class": "span"})
     return out
 
@@ -46,6 +51,7 @@ def run(tier, replay=None):
     else:
         n = 400 if thorough else 60
         progs = progen.corpus(seed(), n, classes=["flow", "calls", "mixed", "stack", "crypto"], nstmts=14 if thorough else 10)
+        progs += progen.depth_sweep(depths=(0, 17, 24) if thorough else (17,), rng_seed=seed())
         progs += span_programs(seed(), 200 if thorough else 40)
     for prof in ("release",) + (("checked",) if thorough else ()):
         rec = vmtrace.record(progs, wd, prof)
